@@ -2,6 +2,7 @@
 package c01
 
 import (
+	"github.com/apache/skywalking-banyandb/banyand/internal/verif/simknobs"
 	"fmt"
 	"os"
 	"testing"
@@ -24,6 +25,9 @@ func TestSim(t *testing.T) {
 
 func runMeasure(e *simcore.Env, tp *simcore.Tape) {
 	synctest.Test(e.T, func(*testing.T) {
+		knobDesc, knobRestore := simknobs.Draw(tp, "measure")
+		defer knobRestore()
+		e.Event("%s", knobDesc)
 		s := wl.GenMeasureSchema(tp, wl.SchemaOpts{})
 		repo := simmeta.New()
 		s.Install(repo)
@@ -154,6 +158,9 @@ func checkMeasure(e *simcore.Env, tp *simcore.Tape, n *simnode.Node, m *wl.Measu
 
 func runStream(e *simcore.Env, tp *simcore.Tape) {
 	synctest.Test(e.T, func(*testing.T) {
+		knobDesc, knobRestore := simknobs.Draw(tp, "stream")
+		defer knobRestore()
+		e.Event("%s", knobDesc)
 		s := wl.GenStreamSchema(tp, wl.SchemaOpts{})
 		repo := simmeta.New()
 		s.Install(repo)
